@@ -82,6 +82,8 @@ pub struct EvMeta {
     pub outcome: String,
     /// active rule set after the action (differs from `set` when the action switched)
     pub set_after: usize,
+    /// match start (char position) before the scan that selected this match
+    pub ms_before: usize,
 }
 
 #[derive(Clone, Debug, Default)]
@@ -118,6 +120,11 @@ pub struct History {
     /// that was active during that scan
     pub item_scan_pos: Vec<usize>,
     pub item_set: Vec<usize>,
+    /// match start (char position) and action counter before the scan that produced the item
+    pub item_ms: Vec<usize>,
+    pub item_cnt: Vec<u32>,
+    pub end_ms: usize,
+    pub end_cnt: u32,
     /// position and rule set when the stream ended
     pub end_pos: usize,
     pub end_set: usize,
@@ -408,6 +415,12 @@ impl Compiled {
 
     /// All (length, via_eoi, rule) candidates at `pos` according to matcher B (cross-check).
     pub fn best_by_matcher_b(&self, set: usize, input: &[char], pos: usize) -> Option<(usize, bool, usize)> {
+        self.best_by_matcher_b_excluding(set, input, pos, None)
+    }
+
+    /// Same, but pretending that candidate `banned` = (rule index in set, end position) did not match
+    /// (e.g. "what if its right context had failed").
+    pub fn best_by_matcher_b_excluding(&self, set: usize, input: &[char], pos: usize, banned: Option<(usize, usize)>) -> Option<(usize, bool, usize)> {
         let mut best: Option<(usize, bool, usize)> = None;
         for (i, r) in self.sets[set].rules.iter().enumerate() {
             let ends = matcher::ends(&r.re, &r.env, input, pos, false);
@@ -417,6 +430,9 @@ impl Compiled {
                     continue; // empty matches are outside well-formedness
                 }
                 if via && e != input.len() {
+                    continue;
+                }
+                if banned == Some((i, e)) {
                     continue;
                 }
                 if let Some(c) = &r.ctx {
@@ -513,6 +529,8 @@ pub struct RefRun<'a> {
     /// scan start position / active set of the scan that produced the last returned item
     pub last_scan_pos: usize,
     pub last_scan_set: usize,
+    pub last_scan_ms: usize,
+    pub last_scan_cnt: u32,
 }
 
 impl<'a> RefRun<'a> {
@@ -529,6 +547,8 @@ impl<'a> RefRun<'a> {
             cross_check_failures: vec![],
             last_scan_pos: 0,
             last_scan_set: 0,
+            last_scan_ms: 0,
+            last_scan_cnt: 0,
         }
     }
 
@@ -551,6 +571,8 @@ impl<'a> RefRun<'a> {
             };
             self.last_scan_pos = cfg.pos;
             self.last_scan_set = cfg.set;
+            self.last_scan_ms = cfg.match_start;
+            self.last_scan_cnt = cfg.counter;
             let sc = self.c.scan(cfg.set, self.input, cfg.pos, read_one);
             h.stats.chars_examined += (sc.furthest - cfg.pos) as u64;
             h.stats.ctx_evals_failed += sc.ctx_failed;
@@ -694,6 +716,7 @@ impl<'a> RefRun<'a> {
                         ctx_passed: sc.ctx_passed,
                         outcome: out.kind(),
                         set_after: cfg.set,
+                        ms_before: self.last_scan_ms,
                     });
                     match out.fin {
                         Fin::Continue => continue,
@@ -723,20 +746,29 @@ impl<'a> RefRun<'a> {
 
     /// Run to completion (until None), with at most `max_items` items.
     pub fn run(&mut self, max_items: usize) -> History {
+        self.run_from(Config::initial(), max_items)
+    }
+
+    /// Run from an arbitrary configuration (used to test hypotheses about the observed lexer).
+    pub fn run_from(&mut self, start: Config, max_items: usize) -> History {
         let mut h = History::default();
-        let mut cfg = Config::initial();
+        let mut cfg = start;
         loop {
             match self.next(&mut cfg, &mut h) {
                 None => {
                     h.final_done = true;
                     h.end_pos = cfg.pos;
                     h.end_set = cfg.set;
+                    h.end_ms = cfg.match_start;
+                    h.end_cnt = cfg.counter;
                     break;
                 }
                 Some(it) => {
                     h.items.push(it);
                     h.item_scan_pos.push(self.last_scan_pos);
                     h.item_set.push(self.last_scan_set);
+                    h.item_ms.push(self.last_scan_ms);
+                    h.item_cnt.push(self.last_scan_cnt);
                     h.item_ev_end.push(h.evs.len());
                     if h.items.len() > max_items {
                         break;
